@@ -22,7 +22,7 @@ void verif_decode_core(silk_decoder_state *psDec, silk_decoder_control *psDecCtr
 /* ------------------------------------------------------------------ recorder */
 #define GUARD 16384
 #define NPH 6
-typedef struct { const char *name; char *base; long n, esz; long zlo, zhi; long rmin[NPH], rmax[NPH], wmin[NPH], wmax[NPH]; int heap; char *blk; } vreg;
+typedef struct { const char *name; char *base; long n, esz; long zlo, zhi; long rmin[NPH], rmax[NPH], wmin[NPH], wmax[NPH]; int heap; char *blk; unsigned char *wbm; long uninit; } vreg;
 static vreg regs[96]; static int nregs = 0; static int recording = 0; static int cur_phase = 0;
 void vrec_phase(int ph) { cur_phase = ph; }
 
@@ -32,7 +32,7 @@ static vreg *vreg_add(const char *name, void *base, long n, long esz, long guard
    vreg *g = &regs[nregs++];
    g->name = name; g->base = (char *)base; g->n = n; g->esz = esz; g->zlo = guard; g->zhi = guard;
    { int q; for (q = 0; q < NPH; q++) { g->rmin[q] = g->wmin[q] = 1L << 40; g->rmax[q] = g->wmax[q] = -(1L << 40); } }
-   g->heap = 0; g->blk = NULL;
+   g->heap = 0; g->blk = NULL; g->wbm = NULL; g->uninit = 0;
    return g;
 }
 static struct { const char *name; long n; } vallocs[32]; static int nvallocs = 0; static int g_nChInt = 1;
@@ -44,6 +44,7 @@ void *vrec_alloc(const char *name, long n, long esz)
    memset(blk, 0x5a, bytes + 2 * GUARD);
    g = vreg_add(name, blk + GUARD, n, esz, GUARD);
    g->heap = 1; g->blk = blk;
+   g->wbm = (unsigned char *)calloc(bytes + 1, 1);       /* which bytes of this fresh (ALLOC'ed) array have been written */
    if (nvallocs < 32) { vallocs[nvallocs].name = name; vallocs[nvallocs].n = n; nvallocs++; }
    if (!strcmp(name, "samplesOut1_tmp_storage1") && g_nChInt >= 1 && n % g_nChInt == 0) {
       /* the two rows samplesOut1_tmp[ 0 ], samplesOut1_tmp[ 1 ] as separate regions (an access one past a row shows up) */
@@ -61,7 +62,14 @@ void *vrec_alloc(const char *name, long n, long esz)
    }
    return blk + GUARD;
 }
-static void vreg_reset(void) { int i; for (i = 0; i < nregs; i++) if (regs[i].heap) free(regs[i].blk); nregs = 0; nvallocs = 0; }
+static void vreg_reset(void) { int i; for (i = 0; i < nregs; i++) if (regs[i].heap) { free(regs[i].blk); free(regs[i].wbm); } nregs = 0; nvallocs = 0; }
+/* initialised-before-read verdict for a fresh array: "bad" when some byte inside it was read before any write to it */
+static void print_init(const char *name)
+{
+   int i; long u = 0, found = 0;
+   for (i = 0; i < nregs; i++) if (regs[i].wbm && !strcmp(regs[i].name, name)) { u += regs[i].uninit; found = 1; }
+   printf(" init{%s=%s}", name, !found ? "na" : u ? "bad" : "ok");
+}
 static void print_allocs(const char *const *names, int nn)
 {
    int i, j, first = 1;
@@ -81,6 +89,12 @@ static void vtouch(const void *addr, long size, int wr)
          lo = off >= 0 ? off / g->esz : -((-off + g->esz - 1) / g->esz);
          off += size - 1;
          hi = off >= 0 ? off / g->esz : -((-off + g->esz - 1) / g->esz);
+         if (g->wbm) {
+            long b0 = (long)(a - g->base), b1 = b0 + size, tot = g->n * g->esz, b; int un = 0;
+            if (b0 < 0) b0 = 0; if (b1 > tot) b1 = tot;
+            if (wr) for (b = b0; b < b1; b++) g->wbm[b] = 1;
+            else { for (b = b0; b < b1; b++) if (!g->wbm[b]) un = 1; g->uninit += un; }
+         }
          if (wr) { if (lo < g->wmin[cur_phase]) g->wmin[cur_phase] = lo; if (hi > g->wmax[cur_phase]) g->wmax[cur_phase] = hi; }
          else    { if (lo < g->rmin[cur_phase]) g->rmin[cur_phase] = lo; if (hi > g->rmax[cur_phase]) g->rmax[cur_phase] = hi; }
          return;
@@ -187,7 +201,7 @@ static void do_core(vrng *r, const core_case *cc)
       recording = 1;
       verif_decode_core(st, ctl, xq, pulses, 0);
       recording = 0; vjmp_armed = 0;
-      printf("O OK "); print_extents(core_names, (int)(sizeof(core_names) / sizeof(core_names[0]))); print_allocs(alloc_names + 1, 4); printf("\n");
+      printf("O OK "); print_extents(core_names, (int)(sizeof(core_names) / sizeof(core_names[0]))); print_allocs(alloc_names + 1, 4); print_init("sLTP_Q15"); printf("\n");
    } else {
       recording = 0; vjmp_armed = 0;
       printf("O ABORT\n");
@@ -328,7 +342,7 @@ static void do_frame(silk_decoder_state *st, vrng *r, int lost)
       printf("} cng{"); print_extents_ph(cng_names, NEL(cng_names), 4);
       get_extent("xq", 5, &rmin, &rmax, &wmin, &wmax);
       printf("} glue{xq:r="); pext(rmin, rmax); printf(",w=%s}", (wmin > wmax || (wmin >= 0 && wmax < F)) ? "ok" : "OOB");
-      print_allocs(alloc_names, 9); printf(" st=");
+      print_allocs(alloc_names, 9); print_init(lost ? "sLTP_Q14" : "sLTP_Q15"); printf(" st=");
       print_state(st); printf("\n");
    } else {
       recording = 0; vjmp_armed = 0; cur_phase = 0; last_abort = 1;
